@@ -1,7 +1,8 @@
 """core/repair.py (+ the fix/repair stages of mcp/validate.py, mcp/write.py, cli/main.py) -> Gen/RepairGen.v
 
 CONSUMED by Rep/Repair.v : repair_guards (ordered guard codes of repair_value), repair_dispatch (isinstance order of
-the constraint loop), rule ids, tier strings, the NUMBER type name, the characters tested by the int/float branch.
+the constraint loop), rule ids, tier strings, the NUMBER type name, the characters tested by the int/float branch, the ORDERED rejecting guards of the float branch
+(repair_float_guards: 1 not finite, 2 zero with a non-zero mantissa) and the mantissa test (split char, lower(), digit set).
 PINNED (Rep/Pins_Repair.v) : normalised source (ast.unparse, docstrings removed) of _attempt_enum_casefold,
 _attempt_type_coercion, _repair_ast_node, _apply_schema_repairs, repair, RepairLog.add, RepairEntry.to_dict and of the
 three call sites (validate.execute `if fix:`, write.execute lenient repair, cli validate `--fix`).
@@ -58,6 +59,66 @@ def _tier_values(src):
             out[st.targets[0].id] = st.value.value
     need("REPAIR" in out, "RepairTier.REPAIR not found")
     return out, mod
+
+
+FLOAT_GUARD_NONFINITE = 1
+FLOAT_GUARD_UNDERFLOW = 2
+REJECT = "(value, False)"
+
+
+def _float_guards(stmts):
+    """Statements after `coerced = float(value_stripped)` in the float branch -> (ordered guard codes, mantissa info | None).
+    Understood, anything else raises:
+      `if not math.isfinite(coerced): return (value, False)`                                    -> code 1
+      `mantissa = value_stripped[.lower()].split('<c>')[0]`                                      -> binding (once, before its use)
+      `if coerced == 0 and any((ch in '<digits>' for ch in mantissa)): return (value, False)`    -> code 2
+    """
+    guards, mant = [], None
+    for st in stmts:
+        if isinstance(st, ast.Assign):
+            need(mant is None, "type coercion: second binding in the float branch")
+            need(len(st.targets) == 1 and isinstance(st.targets[0], ast.Name) and st.targets[0].id == "mantissa",
+                 f"type coercion: float branch binds `{ast.unparse(st.targets[0])}`")
+            v = st.value
+            need(isinstance(v, ast.Subscript) and isinstance(v.slice, ast.Constant) and v.slice.value == 0
+                 and type(v.slice.value) is int, f"type coercion: mantissa is not `<split>[0]`: {ast.unparse(v)}")
+            call = v.value
+            need(isinstance(call, ast.Call) and isinstance(call.func, ast.Attribute) and call.func.attr == "split"
+                 and len(call.args) == 1 and not call.keywords and isinstance(call.args[0], ast.Constant)
+                 and isinstance(call.args[0].value, str) and len(call.args[0].value) == 1,
+                 f"type coercion: mantissa split not understood: {ast.unparse(v)}")
+            on = ast.unparse(call.func.value)
+            need(on in ("value_stripped", "value_stripped.lower()"), f"type coercion: mantissa taken from `{on}`")
+            mant = {"split": ord(call.args[0].value), "lower": 1 if on.endswith(".lower()") else 0, "expr": ast.unparse(v)}
+            continue
+        need(isinstance(st, ast.If) and not st.orelse and len(st.body) == 1 and isinstance(st.body[0], ast.Return)
+             and st.body[0].value is not None and ast.unparse(st.body[0].value) == REJECT,
+             f"type coercion: float branch statement is not a rejecting guard: {ast.unparse(st)!r}")
+        t = ast.unparse(st.test)
+        if t == "not math.isfinite(coerced)":
+            guards.append(FLOAT_GUARD_NONFINITE)
+            continue
+        te = st.test
+        need(mant is not None and "digits" not in mant, f"type coercion: unknown float guard `{t}`")
+        need(isinstance(te, ast.BoolOp) and isinstance(te.op, ast.And) and len(te.values) == 2
+             and ast.unparse(te.values[0]) == "coerced == 0", f"type coercion: unknown float guard `{t}`")
+        a = te.values[1]
+        need(isinstance(a, ast.Call) and ast.unparse(a.func) == "any" and len(a.args) == 1 and not a.keywords
+             and isinstance(a.args[0], ast.GeneratorExp), f"type coercion: unknown float guard `{t}`")
+        g = a.args[0]
+        need(len(g.generators) == 1 and not g.generators[0].ifs and not g.generators[0].is_async
+             and ast.unparse(g.generators[0].target) == "ch" and ast.unparse(g.generators[0].iter) == "mantissa",
+             f"type coercion: underflow guard does not scan the mantissa: `{t}`")
+        e = g.elt
+        need(isinstance(e, ast.Compare) and len(e.ops) == 1 and isinstance(e.ops[0], ast.In) and ast.unparse(e.left) == "ch"
+             and isinstance(e.comparators[0], ast.Constant) and isinstance(e.comparators[0].value, str)
+             and e.comparators[0].value, f"type coercion: underflow guard digit test not understood: `{t}`")
+        mant["digits"] = e.comparators[0].value
+        mant["test"] = t
+        guards.append(FLOAT_GUARD_UNDERFLOW)
+    need(len(set(guards)) == len(guards), "type coercion: a float guard occurs twice")
+    need(mant is None or "digits" in mant, "type coercion: mantissa bound but never tested")
+    return guards, mant
 
 
 def _find_if(fn, test_src):
@@ -148,8 +209,16 @@ def generate(src):
         int_chars.append((ord(v.left.value), 1 if on.endswith(".lower()") else 0))
     need(ast.unparse(br.body[0]) == "coerced = int(value_stripped)", "type coercion: int branch changed")
     need(ast.unparse(br.orelse[0]) == "coerced = float(value_stripped)", "type coercion: float branch changed")
-    need(len(br.orelse) == 2 and ast.unparse(br.orelse[1]) == "if not math.isfinite(coerced):\n    return (value, False)",
-         "type coercion: finiteness guard changed")
+    # the float branch: `coerced = float(..)` followed by an ordered sequence of rejecting guards (each returns
+    # (value, False)); bindings between guards are understood one by one (only the mantissa binding exists)
+    float_guards, mant = _float_guards(br.orelse[1:])
+    need(float_guards[:1] == [FLOAT_GUARD_NONFINITE],
+         "type coercion: the finiteness guard is not the first statement after float()")
+    tb = tries[0].body
+    need(len(tb) == 3 and isinstance(tb[1], ast.Expr) and isinstance(tb[1].value, ast.Call)
+         and ast.unparse(tb[1].value.func) == "repair_log.add" and ast.unparse(tb[2]) == "return (coerced, True)",
+         "type coercion: statements between the int/float branch and the logged return changed")
+    need(len(br.body) == 1, "type coercion: int branch has more than the int() binding")
     # ---------------- pins: normalised sources -----------------
     pins = {
         "src_attempt_enum_casefold": _src(ef),
@@ -183,6 +252,14 @@ def generate(src):
     out.append("(* int() is chosen iff none of these characters occurs; (char, 1 = tested on .lower()) *)\n")
     out.append(f"Definition repair_int_branch_chars : list (N * N) := {coq_list([f'({c}, {l})' for c, l in int_chars], '(N * N)')}.\n")
     out.append(f"Definition repair_int_branch_test : list N := {coq_str(branch_test)}.\n")
+    out.append("(* float branch: ordered rejecting guards after float() (1 = not math.isfinite(coerced), 2 = coerced == 0 and the\n"
+               "   mantissa -- text before the first split char, of the lower-cased text iff lower = 1 -- has a char of digits) *)\n")
+    out.append(f"Definition repair_float_guards : list N := {coq_list([str(g) for g in float_guards], 'N')}.\n")
+    out.append(f"Definition repair_mantissa_split : N := {mant['split'] if mant else 0}.\n")
+    out.append(f"Definition repair_mantissa_lower : N := {mant['lower'] if mant else 0}.\n")
+    out.append(f"Definition repair_mantissa_digits : list N := {coq_str(mant['digits'] if mant else '')}.\n")
+    out.append(f"Definition repair_mantissa_expr : list N := {coq_str(mant['expr'] if mant else '')}.\n")
+    out.append(f"Definition repair_underflow_guard_test : list N := {coq_str(mant['test'] if mant else '')}.\n")
     out.append(f"Definition repair_caught : list (list N) := {coq_list([coq_str(c) for c in caught], '(list N)')}.\n")
     for k, v in pins.items():
         out.append(f"Definition repair_{k} : list N := {coq_str(v)}.\n")
